@@ -2,6 +2,7 @@ package main
 
 import (
 	"fmt"
+	"go/token"
 	"go/types"
 	"sort"
 	"strings"
@@ -190,6 +191,207 @@ func accessorKeyRule(p *Prog, r *Report, rule string, mods map[string]bool, floo
 				r.OK(rule, construct, "key built from the accessor's inputs", p.instrPos(c))
 			} else {
 				r.Fail(rule, construct, "the store key is built from a value that is still zero: "+bad+"; every caller is served the record stored under id 0 (or none), whatever it asked for", p.instrPos(c), nil)
+			}
+		}
+	}
+}
+
+// rekeyRule: where a function removes an index entry and writes it again (Delete<X>For<Y> /
+// Set<X>For<Y> of the same index) because the key changed, the two calls use different keys:
+// deleting the very key that is set next leaves the OLD entry behind. Such a stale entry is
+// not part of the export (indexes are rebuilt from the records at import), so the imported
+// chain answers lookups differently from the exporting one.
+func rekeyRule(p *Prog, r *Report, rule string, floor int) {
+	r.Rule(rule, "an index entry that is deleted and written again in one function is deleted under its old key, not under the key just written", floor)
+	for _, fn := range p.Funcs {
+		if !isComdexFn(fn) || p.isAuxFn(fn) || len(fn.Blocks) == 0 || !strings.HasSuffix(fnPkgPath(fn), "/keeper") {
+			continue
+		}
+		type site struct {
+			c    ssa.CallInstruction
+			name string
+			keys []string
+		}
+		var dels, sets []site
+		for _, c := range calls(fn) {
+			ts := p.Callees(c)
+			if len(ts) == 0 || !isComdexFn(ts[0]) || ts[0].Signature.Recv() == nil {
+				continue
+			}
+			n := ts[0].Name()
+			args := callArgs(c)
+			if len(args) < 2 {
+				continue
+			}
+			switch {
+			case strings.HasPrefix(n, "Delete") && strings.Contains(n, "For"):
+				var ks []string
+				for _, a := range args[1:] {
+					ks = append(ks, p.ExprKey(a))
+				}
+				dels = append(dels, site{c, strings.TrimPrefix(n, "Delete"), ks})
+			case strings.HasPrefix(n, "Set") && strings.Contains(n, "For"):
+				var ks []string
+				for _, a := range args[1:] {
+					ks = append(ks, p.ExprKey(a))
+				}
+				sets = append(sets, site{c, strings.TrimPrefix(n, "Set"), ks})
+			}
+		}
+		k := 0
+		for _, d := range dels {
+			for _, s := range sets {
+				if d.name != s.name || len(s.keys) < len(d.keys) {
+					continue
+				}
+				// the delete precedes the set on some path
+				if d.c.Block() != s.c.Block() {
+					seen, _ := reach(fn, d.c.Block(), nil, nil)
+					if !seen[s.c.Block()] {
+						continue
+					}
+				} else if !before(d.c, s.c) {
+					continue
+				}
+				k++
+				r.Instance(rule)
+				r.FuncsSeen[fname(fn)] = true
+				construct := fmt.Sprintf("%s re-keys %s #%d", fname(fn), d.name, k)
+				same := true
+				for i := range d.keys {
+					if d.keys[i] != s.keys[i] {
+						same = false
+					}
+				}
+				if same {
+					r.Fail(rule, construct, "the index entry is deleted under the very key it is written under next: the entry under the previous key stays behind (it exists on the running chain and is gone after an export / import, so lookups answer differently)", p.instrPos(d.c), nil)
+				} else {
+					r.OK(rule, construct, "deleted under another key than the one written", p.instrPos(d.c))
+				}
+			}
+		}
+	}
+}
+
+// exportReaderUnconditional: in the code ExportGenesis reaches, a bulk reader is not skipped
+// depending on what ANOTHER bulk reader returned (`if len(active) == 0 { continue }` in front
+// of the read of the queued records): the records of the skipped prefix are missing from the
+// export although they are in the store.
+func exportReaderUnconditional(p *Prog, r *Report, rule, m string, exportReach map[*ssa.Function]bool) {
+	isBulk := func(c ssa.CallInstruction) bool {
+		ts := p.Callees(c)
+		if len(ts) == 0 || !isComdexFn(ts[0]) || ts[0].Signature.Recv() == nil {
+			return false
+		}
+		n := ts[0].Name()
+		if !strings.HasPrefix(n, "GetAll") && !strings.HasPrefix(n, "GetAll") {
+			return false
+		}
+		res := ts[0].Signature.Results()
+		if res.Len() == 0 {
+			return false
+		}
+		_, isSlice := res.At(0).Type().Underlying().(*types.Slice)
+		return isSlice
+	}
+	var fns []*ssa.Function
+	for f := range exportReach {
+		if moduleOf(f) == m && len(f.Blocks) > 0 && !p.isAuxFn(f) {
+			fns = append(fns, f)
+		}
+	}
+	sort.Slice(fns, func(i, j int) bool { return fname(fns[i]) < fname(fns[j]) })
+	for _, fn := range fns {
+		var readers []ssa.CallInstruction
+		for _, c := range calls(fn) {
+			if isBulk(c) {
+				readers = append(readers, c)
+			}
+		}
+		if len(readers) < 2 {
+			continue
+		}
+		loopHead := map[*ssa.BasicBlock]bool{}
+		for _, l := range loopsOf(fn) {
+			loopHead[l.Head] = true
+		}
+		for i, rd := range readers {
+			r.Instance(rule)
+			r.FuncsSeen[fname(fn)] = true
+			construct := fmt.Sprintf("%s reader %s #%d", fname(fn), callName(rd), i+1)
+			bad := ""
+			for _, b := range fn.Blocks {
+				if len(b.Instrs) == 0 || !b.Dominates(rd.Block()) || b == rd.Block() {
+					continue
+				}
+				ifi, ok := b.Instrs[len(b.Instrs)-1].(*ssa.If)
+				if !ok {
+					continue
+				}
+				// the continuation test of a range loop (index < len(list)): iterating over one
+				// reader's records and reading per record is the normal nesting
+				if bo, isBo := ifi.Cond.(*ssa.BinOp); isBo && bo.Op == token.LSS {
+					if lc, isC := bo.Y.(*ssa.Call); isC {
+						if bi, isB := lc.Call.Value.(*ssa.Builtin); isB && bi.Name() == "len" {
+							continue
+						}
+					}
+				}
+				_ = loopHead
+				// rd sits under exactly one arm of the test
+				// (a successor that leaves the arm - the loop header reached by `continue` - dominates
+				// the reader too, but is not dominated by the test)
+				arm := func(s *ssa.BasicBlock) bool {
+					return b.Dominates(s) && s != b && (s == rd.Block() || s.Dominates(rd.Block()))
+				}
+				under0 := arm(b.Succs[0])
+				under1 := arm(b.Succs[1])
+				if under0 == under1 {
+					continue
+				}
+				// does the condition derive from another bulk reader's result (its length, emptiness)?
+				var leaves []ssa.Value
+				var walk func(v ssa.Value, d int)
+				walk = func(v ssa.Value, d int) {
+					if v == nil || d > 6 {
+						return
+					}
+					switch x := v.(type) {
+					case *ssa.BinOp:
+						walk(x.X, d+1)
+						walk(x.Y, d+1)
+					case *ssa.UnOp:
+						walk(x.X, d+1)
+					case *ssa.Call:
+						if _, isB := x.Call.Value.(*ssa.Builtin); isB {
+							for _, a := range x.Call.Args {
+								walk(a, d+1)
+							}
+							return
+						}
+						leaves = append(leaves, v)
+					default:
+						leaves = append(leaves, v)
+					}
+				}
+				walk(ifi.Cond, 0)
+				for _, lv := range leaves {
+					for _, o := range p.DeepOrigins(lv) {
+						if o.Kind != "call" {
+							continue
+						}
+						for _, other := range readers {
+							if other != rd && ssa.CallInstruction(o.Call) == other {
+								bad = callName(other)
+							}
+						}
+					}
+				}
+			}
+			if bad == "" {
+				r.OK(rule, construct, "not skipped on another reader's result", p.instrPos(rd))
+			} else {
+				r.Fail(rule, construct, "this export reader runs only for some results of "+bad+": the records it would have read are left out of the export although they are in the store", p.instrPos(rd), nil)
 			}
 		}
 	}
